@@ -142,8 +142,12 @@ static long sim_write(FS& F, int fd, OpenFile& of, const char* data, size_t n) {
             case WFault::EIO_: res = -EIO; if (F.ctr) F.ctr->add("fault_fired.eio"); break;
             case WFault::EINTR_: res = -EINTR; if (F.ctr) F.ctr->add("fault_fired.eintr"); break;
             case WFault::SHORT: {
+                // a short count still makes progress (a kernel does not return 0 for a non-empty regular-file write);
+                // a 1-byte request therefore cannot be cut
+                if (n < 2) { wf.fired--; break; }
                 size_t acc = n * wf.short_pm / 1000;
-                if (acc >= n && n > 0) acc = n - 1;
+                if (acc < 1) acc = 1;
+                if (acc >= n) acc = n - 1;
                 res = (long)acc;
                 if (F.ctr) F.ctr->add("fault_fired.short");
                 break;
